@@ -13,6 +13,12 @@ for sid in "$@"; do
   out=$(VERIF_REPO=$wt timeout 1500 tools/check $prop --tier ${TIER:-quick} 2>&1); rc=$?
   t1=$(date +%s)
   if [ $rc -eq 1 ] && echo "$out" | grep -q "^VIOLATION property=$prop"; then verdict=DETECTED; elif [ $rc -eq 0 ]; then verdict=MISSED; else verdict="INFRA(rc=$rc)"; fi
-  echo "$sid $prop $verdict rc=$rc $((t1-t0))s $(echo "$out" | grep -m1 'violation:' | cut -c1-160)"
+  first=$(echo "$out" | grep -m1 'violation:' | cut -c1-300)
+  echo "$sid $prop $verdict rc=$rc $((t1-t0))s $first"
+  python3 - "$sid" "$prop" "$verdict" "$rc" "$((t1-t0))" "${TIER:-quick}" "$first" >> /verif/.work/matrix_results.ndjson <<'PY'
+import sys, json, time
+a = sys.argv[1:]
+print(json.dumps({"id": a[0], "property": a[1], "verdict": a[2], "rc": int(a[3]), "seconds": int(a[4]), "tier": a[5], "first_violation": a[6].strip(), "at": time.strftime("%Y-%m-%dT%H:%M:%SZ", time.gmtime())}))
+PY
   git -C /repo worktree remove --force $wt
 done
